@@ -59,10 +59,11 @@ const (
 	spOwnFile          // own file name instead of fragment-only (same document)
 	spUpDown           // ../<dir>/relative (leave the directory and come back)
 	spAbsDetour        // absolute URL whose path makes a detour (/dir/x/../file.json)
+	spAbsQuery         // absolute file: URL carrying a query (irrelevant for a local file)
 	nSpellings
 )
 
-var spellNames = []string{"short", "./relative", "root-relative", "absolute", "x/../detour", "own-file-name", "../dir/relative", "absolute-with-detour"}
+var spellNames = []string{"short", "./relative", "root-relative", "absolute", "x/../detour", "own-file-name", "../dir/relative", "absolute-with-detour", "absolute-with-query"}
 
 type gedge struct {
 	From, To, Form, Spell int
@@ -191,6 +192,11 @@ var nameSchemes = [][]string{
 func (g *gspec) nodeName(i int) string { return nameSchemes[g.Names][i] }
 
 func (g *gspec) nodeDocURL(i int) string {
+	if g.Shape[i] == 4 {
+		u, _ := url.Parse(docURLs[g.Place[i]])
+		u.Path = path.Join(path.Dir(u.Path), fmt.Sprintf("l%d.json", i))
+		return u.String()
+	}
 	if g.Shape[i] == 3 {
 		// a document of its own, in the directory of its placement document
 		u, _ := url.Parse(docURLs[g.Place[i]])
@@ -209,6 +215,8 @@ func (g *gspec) nodePtr(i int) []string {
 		return []string{"definitions", "H" + strconv.Itoa(i), "allOf", "1"}
 	case 3:
 		return nil
+	case 4:
+		return []string{"1"}
 	}
 	return []string{"definitions", n}
 }
@@ -293,6 +301,11 @@ func spell(src, dst, frag string, sp int) string {
 		if sameSite {
 			return rel() + hash
 		}
+	case spAbsQuery:
+		if du.Scheme == "file" {
+			return dst + "?rev=2" + hash
+		}
+		return dst + hash
 	case spAbsDetour:
 		d2 := *du
 		d2.Path = path.Dir(du.Path) + "/x/../" + path.Base(du.Path)
@@ -430,8 +443,13 @@ func (g *gspec) build() *built {
 		}
 	}
 	// place nodes
+	arrayDocs := map[string][]interface{}{}
 	for i := 0; i < g.N; i++ {
 		du := g.nodeDocURL(i)
+		if g.Shape[i] == 4 {
+			arrayDocs[du] = []interface{}{obj("title", "pad"), nodes[i]}
+			continue
+		}
 		if g.Shape[i] == 3 {
 			docs[du] = nodes[i]
 			continue
@@ -556,6 +574,10 @@ func (g *gspec) build() *built {
 		if err != nil {
 			panic(err)
 		}
+		out.Docs[u] = b
+	}
+	for u, d := range arrayDocs {
+		b, _ := json.Marshal(d)
 		out.Docs[u] = b
 	}
 	return out
